@@ -404,4 +404,31 @@ Proof.
     + inversion Ekn; subst. rewrite (A k n Hx). exact (env_of_in_range V q c_V_nodup Hq k n Hx).
     + unfold inr_s in Rs. rewrite Forall_forall in Rs. exact (fvn_of_inrange rho' T (Rs (k', T) HT) k n HkT).
 Qed.
+
+(** * the premises of the pointer theorem *)
+Lemma c_i2v_nodup : NoDup (map fst i2v).
+Proof. rewrite Ei2v, (di_labels _ _ _ _ _ c_dinv). apply dedup_nat_NoDup. Qed.
+
+Lemma c_lens : Forall2 (fun (t : ptensor R) inp => length (vaxes t) = length inp) ts inputs.
+Proof. eapply Forall2_imp; [|exact c_ops]. intros t inp [_ Tt]. rewrite (tys_length _ _ _ Tt), map_length. reflexivity. Qed.
+
+Theorem typed_cert_viterbi : cert_viterbi r inputs output = true.
+Proof.
+  unfold cert_viterbi, pop_all.
+  assert (A6 : forallb (fun l => match lassoc l i2v with Some _ => true | None => false end) output = true).
+  { apply forallb_forall. intros l Hl. apply mapM_Forall2 in E2.
+    destruct (Forall2_In_l _ _ _ _ E2 Hl) as (c & _ & Hc). destruct (lassoc l i2v); [reflexivity|discriminate]. }
+  rewrite A6, pop_each_filter.
+  apply andb_true_iff. split; [apply andb_true_iff; split|].
+  - apply leqb_eq. rewrite (map_fst_filter (fun l => negb (existsb (Nat.eqb l) output)) i2v).
+    rewrite Ei2v, (di_labels _ _ _ _ _ c_dinv). unfold summed_labels. rewrite <- (occ_labels ts inputs c_lens).
+    apply filter_dedup_nat. intros x. simpl. rewrite orb_false_r. reflexivity.
+  - apply forallb_forall. intros [l e] Hle. apply filter_In in Hle. destruct Hle as [Hle _]. cbn [fst snd].
+    rewrite (lassoc_nodup l e i2v c_i2v_nodup Hle). apply axis_eqb_refl.
+  - apply forallb_forall. intros [l e] Hle. apply filter_In in Hle. destruct Hle as [Hle _]. cbn [fst snd].
+    destruct (c_occ l e (c_i2v l e (lassoc_nodup l e i2v c_i2v_nodup Hle))) as [Te _].
+    destruct (stride_total_sfuel G sigma e (lty l) c_wts Te) as (o0 & s0 & Es). rewrite Es. cbn [snd].
+    apply forallb_forall. intros [k c] Hk. cbn [fst]. apply unbound_assoc.
+    destruct (stride_keys_ok sigma _ _ _ _ Es) as [_ Kk]. apply (Kk k). unfold keys. apply in_map_iff. exists (k, c). auto.
+Qed.
 End Cert.
